@@ -221,4 +221,52 @@ theorem noPollAfterFinB_iff (log : List Ev) :
           | false => rfl
           | true => exact absurd rfl (h1 _ (List.contains_iff_mem.mp hc) t rfl)
 
+theorem stallB_iff (s : State) :
+    stallB s = true ↔
+      (s.queue = [] → ∀ t acts, t < s.ntasks → s.fut t = some acts → blockedB s t acts = true) := by
+  unfold stallB
+  cases hq : s.queue with
+  | cons a q => simp
+  | nil =>
+    simp only [List.isEmpty_nil, Bool.not_true, Bool.false_or, forall_const]
+    rw [List.all_eq_true]
+    constructor
+    · intro h t acts ht hf
+      have := h t (List.mem_range.mpr ht)
+      rw [hf] at this
+      exact this
+    · intro h t ht
+      cases hf : s.fut t with
+      | none => rfl
+      | some acts => exact h t acts (List.mem_range.mp ht) hf
+
+theorem relayB_iff (s : State) :
+    relayB s = true ↔
+      ∀ c, c < s.ntasks → s.delivered c = (if s.relay c = .done then 1 else 0) ∧
+        (s.fut c = none ↔ (s.relay c).sent = true) := by
+  unfold relayB
+  rw [List.all_eq_true]
+  have key : ∀ c, (s.delivered c == (if s.relay c == .done then 1 else 0) &&
+        ((s.fut c).isNone == (s.relay c).sent)) = true ↔
+      (s.delivered c = (if s.relay c = .done then 1 else 0) ∧ (s.fut c = none ↔ (s.relay c).sent = true)) := by
+    intro c
+    simp only [Bool.and_eq_true, beq_iff_eq]
+    constructor
+    · rintro ⟨h1, h2⟩
+      refine ⟨h1, ?_⟩
+      cases hf : s.fut c with
+      | none => rw [hf] at h2; simp at h2; simp [← h2]
+      | some a => rw [hf] at h2; simp at h2; simp [← h2]
+    · rintro ⟨h1, h2⟩
+      refine ⟨h1, ?_⟩
+      cases hf : s.fut c with
+      | none => simp [h2.mp hf]
+      | some a =>
+        cases hs : (s.relay c).sent with
+        | false => rfl
+        | true => rw [h2.mpr hs] at hf; cases hf
+  constructor
+  · intro h c hc; exact (key c).mp (h c (List.mem_range.mpr hc))
+  · intro h c hc; exact (key c).mpr (h c (List.mem_range.mp hc))
+
 end YashModel.Executor
